@@ -24,15 +24,15 @@ CHECKS = {
                 note="The input quantifier (spaces, histories, options) is sampled; restart is the only fault dimension. Third-party numerical failures end a sequence and are counted."),
     "C12": dict(engine="compsim", category="exploration", design="4/C12",
                 technique="deterministic simulation: scripted collision generator as peer, reference retry model (RefDedup) compared on request sizes and result multiset",
-                text="BaseSampler.sample() driven by a scripted generator that injects collisions (repeats of history, in-batch repeats, repeats of earlier redraws) over histories with repeats, batch sizes 1-6, budgets 0-6; request sizes, shape and the returned multiset must equal the reference retry model written from the statement.",
+                text="BaseSampler.sample() driven by a scripted generator that injects collisions (repeats of history, in-batch repeats, repeats of earlier redraws) over histories with repeats, batch sizes 1-6, budgets 0-6, one to three calls on the same object (other history of the same length, grown, same) and pickle round trips between them; request sizes, shape and the returned multiset must equal the reference retry model written from the statement.",
                 note="Which redraw replaces which repeated position is not prescribed, so results are compared as multisets; both copies of an in-batch repeat count as repeats (as the statement's request-size clause implies)."),
     "C13": dict(engine="compsim", category="exploration", design="4/C13",
                 technique="deterministic simulation: batch/reseed/pickle-restart op sequences on one sampler with twin objects, every emitted pre-snap point compared with exact reference sequences",
-                text="Halton and R-sequence samplers of 1-40 dims driven through op sequences; every emitted point must equal the exact radical inverse (independent sieve, rational arithmetic) resp. offset+k*phi-vector mod 1 (independent 50-digit phi), start index in range and seed-determined (construct vs construct, reseed vs reseed), batches must concatenate to the twin's single batch bitwise, also across restarts; the public halton() helper is probed at carry-biased start indices.",
+                text="Halton and R-sequence samplers of 1-40 dims (unit cube and boxes with non-zero lower bounds) driven through op sequences; every emitted point must equal the exact radical inverse (independent sieve, rational arithmetic) resp. offset+k*phi-vector mod 1 (independent 50-digit phi), start index in range and seed-determined (construct vs construct, reseed vs reseed), batches must concatenate to the twin's single batch bitwise, also across restarts; the public halton() helper is probed at carry-biased start indices.",
                 note="Pre-snap values observed at the module's digitize_data name; tolerances 1e-12 (Halton) and 1e-9 (R-sequence)."),
     "C16": dict(engine="compsim+calsim", category="exploration", design="4/C16",
                 technique="deterministic simulation: read-only hash monitor at the sampler seam, scripted stub-surrogate peer, best-batch descent oracle on grid indices",
-                text="(a) lent history arrays hashed before/after every sample() of all nine samplers with ties/inf/float32-overflowing losses, in op sequences and whole calibrations; (b) a stub surrogate with scripted fit/predict (ties, negative, huge) must be trained on exactly the history and return the snapped batch_size lowest-prediction candidates; (c) every best-batch proposal must descend from one of the batch_size lowest-loss points by 1..range-1 grid steps.",
+                text="(a) lent history arrays (those of the current call and every array lent at an earlier call; fresh arrays or views of one buffer) hashed before/after every sample() of all nine samplers with ties/inf/float32-overflowing losses, in op sequences and whole calibrations; (b) a stub surrogate with scripted fit/predict (ties, negative, huge, infinite) must be trained on exactly the history and return the snapped batch_size lowest-prediction candidates; (c) every best-batch proposal must descend from one of the batch_size lowest-loss points by 1..range-1 grid steps.",
                 note="Ties at the selection threshold may be broken either way; clipping or snapping both count as 'confined to the space'."),
     "C09": dict(engine="calsim", category="exploration", design="4/C09",
                 technique="deterministic simulation: op histories (calibrate / crash+restore / crash-inside-batch+restore) on a real Calibrator, sampler-seam record compared with reference round-robin and RL scheduling models",
@@ -44,7 +44,7 @@ CHECKS = {
                 note="Configurations are sampled, fault positions within each are complete. Thread liveness is read from the baton scheduler's stand-ins, not from OS threads."),
     "C14": dict(engine="calsim", category="exploration", design="4/C14",
                 technique="deterministic simulation: loss sequences scripted through the model seam, reference stop model, verbose twin, restore of the written checkpoint",
-                text="Scripted loss sequences x precision (None, 0-12) x verbosity twin x folder x repeated calibrate() calls on a real Calibrator; batches run, rows and batch index per call must equal the reference stop model (first batch after which the running minimum rounds to zero), verbose and quiet twins must be bit-identical, and with a folder the restored checkpoint must equal the returned state including the stopping batch.",
+                text="Scripted loss sequences (distances, and signed ones through a user-defined loss) x precision (None, 0-12) x verbosity twin x folder x repeated calibrate() calls on a real Calibrator; batches run, rows and batch index per call must equal the reference stop model (first batch after which the running minimum rounds to zero), verbose and quiet twins must be bit-identical, and with a folder the restored checkpoint must equal the returned state including the stopping batch.",
                 note="Scripted values avoid the half-unit rounding boundary; samplers are the history-free ones (losses are dictated, not computed)."),
     "C04": dict(engine="calsim", category="exploration", design="4/C04",
                 technique="deterministic simulation: save/restore/new-run op histories on a simulated folder with stale-folder and extreme-value faults; deep bitwise comparator (RefCheckpoint) between live and restored object graphs; SQLite module API round trips",
